@@ -96,6 +96,9 @@ func SubBytes(x, lo, hi *sym.Term) *sym.Term {
 // ByteAt builds x[i].
 func ByteAt(x, idx *sym.Term) *sym.Term {
 	if i, ok := idx.Int64(); ok {
+		if x.Op == "byte" && len(x.Args) == 1 && i == 0 {
+			return x.Args[0] // the one octet of a one-octet string
+		}
 		if x.IsStrConst() && i >= 0 && int(i) < len(x.S) {
 			return sym.ConstI(int64(x.S[i]))
 		}
